@@ -33,13 +33,13 @@ theorem gen_ec2DblLD : Gen.ec2DblLD = ec2DblLD := rfl
 theorem gen_ec2DblALD : Gen.ec2DblALD = ec2DblALD := rfl
 
 /-- non-vacuity: two tests, 10 instructions, the three-way branch on `A`, with tails of 3 / 2 / 4 -/
-example : ∃ is, Gen.ec2DblLD 2 5 11 = .ifz 7 (.seq (.zero 4) (.ret true))
-    (.ifz 5 (.seq (.zero 4) (.ret true)) (Prog.block is
+example : ∃ is, Gen.ec2DblLD 2 5 11 = .ifz 7 (Prog.block [.one 2, .zero 3, .zero 4] (.ret true))
+    (.ifz 5 (Prog.block [.one 2, .zero 3, .zero 4] (.ret true)) (Prog.block is
       (.ifone 0 (Prog.block [.add 2 2 4, .mul 11 11 2, .add 3 3 11] (.ret true))
         (.ifz 0 (Prog.block [.mul 11 11 2, .add 3 3 11] (.ret true))
           (Prog.block [.mul 12 0 4, .add 2 2 12, .mul 11 11 2, .add 3 3 11] (.ret true)))))) ∧
     is.length = 10 := ⟨_, rfl, rfl⟩
-example : ∃ is k₁ k₂ k₃, Gen.ec2DblALD 2 5 11 = .ifz 5 (.seq (.zero 4) (.ret true))
+example : ∃ is k₁ k₂ k₃, Gen.ec2DblALD 2 5 11 = .ifz 5 (Prog.block [.one 2, .zero 3, .zero 4] (.ret true))
     (Prog.block is (.ifone 0 k₁ (.ifz 0 k₂ k₃))) ∧ is.length = 5 := ⟨_, _, _, _, rfl, rfl⟩
 
 /-! ### addition, subtraction (projective, mixed) -/
